@@ -133,7 +133,9 @@ func (w *World) resolveFieldRole(p *packages.Package, structName, field string) 
 		if strings.HasPrefix(ts, "sync/atomic.Pointer[") && strings.HasSuffix(ts, "]") && !strings.HasPrefix(role.typ, "sync/atomic.") {
 			ts = strings.TrimSuffix(strings.TrimPrefix(ts, "sync/atomic.Pointer["), "]")
 		}
-		if ts == role.typ || (role.typ == "int32" && strings.HasPrefix(ts, "sync/atomic.")) || (role.typ == "uint64" && strings.HasPrefix(ts, "sync/atomic.Uint")) {
+		isMu := func(t string) bool { return t == "sync.Mutex" || t == "sync.RWMutex" }
+		if ts == role.typ || (role.typ == "int32" && strings.HasPrefix(ts, "sync/atomic.")) || (role.typ == "uint64" && strings.HasPrefix(ts, "sync/atomic.Uint")) ||
+			(isMu(role.typ) && isMu(ts) && role.anchor != "") {
 			cands = append(cands, i)
 		}
 	}
@@ -153,8 +155,27 @@ func (w *World) resolveFieldRole(p *packages.Package, structName, field string) 
 			if role.after {
 				want = ai + 1
 			}
+			// a lock grouped with its data shares the group's prefix (cache_mu / cache_instances)
+			if i := strings.IndexByte(a.Name(), '_'); i > 0 {
+				var pref []int
+				for _, c := range cands {
+					if strings.HasPrefix(st.Field(c).Name(), a.Name()[:i+1]) {
+						pref = append(pref, c)
+					}
+				}
+				if len(pref) == 1 {
+					return set(st.Field(pref[0]))
+				}
+			}
 			for _, c := range cands {
 				if c == want {
+					return set(st.Field(c))
+				}
+			}
+			// the lock on the other side of its data (declared before instead of after, or the reverse)
+			other := 2*ai - want
+			for _, c := range cands {
+				if c == other {
 					return set(st.Field(c))
 				}
 			}
